@@ -1,5 +1,5 @@
 (* C02 - message framing does not depend on how the byte stream is segmented *)
-From VL Require Import Base Json Schema Wire Service ServiceProofs ServiceExamples.
+From VL Require Import Base Json Schema Wire Service ServiceProofs ServiceCap ServiceExamples.
 
 Theorem C02_segmentation_independent : forall svc chunks,
   feed_all svc chunks = feed_all svc [concat chunks].
@@ -18,4 +18,15 @@ Theorem C02_upgrade_hands_over_everything : forall svc pre rest i o,
 Proof. exact upgrade_hands_over_everything. Qed.
 Print Assumptions C02_upgrade_hands_over_everything.
 
-Check ex_chunked. Check ex_upgrade.
+(* the caller that hands handle() a transient slice and keeps only the returned tail (the reference callers in
+   test.rs and the ping example), against handle()'s inner block buffer: identical to the unbounded caller - hence
+   segmentation independent and complete after an upgrade - whenever the stream fits one block *)
+Theorem C02_slice_caller_within_block : forall cap svc chunks, (total chunks <= cap)%nat ->
+  feed_all_cap cap svc chunks = feed_all svc chunks /\
+  feed_all_cap cap svc chunks = feed_all_cap cap svc [concat chunks].
+Proof. intros cap svc chunks H. split; [exact (feed_all_cap_small cap svc chunks H) | exact (feed_all_cap_chunking cap svc chunks H)]. Qed.
+Print Assumptions C02_slice_caller_within_block.
+
+Check ex_chunked. Check ex_upgrade. Check ex_slice_caller_within_block.
+(* known finding, not a theorem of the property: beyond one block the slice caller loses upgraded payload *)
+Check ex_slice_caller_drops_beyond_block.
